@@ -163,6 +163,29 @@ func (prop) Run(line string) core.Outcome {
 	}
 	c := newController(nk, progs, mode)
 	defer c.stop()
+	if mode != modePlain {
+		// the client pools are caddy's global ones: take out whatever this case leaves behind (configs that
+		// never clean up), or every later case would iterate over it
+		defer func() {
+			c.current = nil
+			for _, t := range c.threads {
+				if !t.done() || c.hung {
+					return // something is still parked (or stuck) inside the pool: leave it alone
+				}
+			}
+			for k := 0; k < nk; k++ {
+				for i := 0; i < 64; i++ {
+					if _, present := c.up.References(c.key(k)); !present {
+						break
+					}
+					func() {
+						defer func() { _ = recover() }()
+						_, _ = c.up.Delete(c.key(k))
+					}()
+				}
+			}
+		}()
+	}
 	o := newOracle(nk, len(progs))
 	o.client = mode != modePlain
 	var toks []string
